@@ -7,12 +7,13 @@
     commutation lemma of TierBridgeLemmas.v — no new proof idea, but the statement no longer mentions the
     forest-level model [spec_*].
 
-    Primitives that allocate or release strings (cJSON_DeleteItemFromObject, cJSON_AddItemToObject,
-    cJSON_ReplaceItemInObject, cJSON_Duplicate) are NOT composed here: their result heaps have a different
-    string heap, and [reify] of the untouched trees is preserved only if no BORROWED string of a remaining
-    node (constant key, string reference) aliases a released block — an aliasing condition the value-level
-    models cannot even express.  For them the two halves stay separate: C06 / C11 (heap ⊑ forest) and
-    [tier_b_presupposition] (forest ↦ value), plus [TierBridgeLemmas.reify_insert_fresh] for allocation. *)
+    Primitives that allocate or release strings: cJSON_AddItemToObject and cJSON_DeleteItemFromObject are
+    composed in TierBridgeEndToEndStr.v (their result heaps have a different string heap, and [reify] of the
+    untouched trees is preserved only if no BORROWED string of a remaining node — constant key, string
+    reference — aliases a released block: an aliasing condition the value-level models cannot express, which
+    becomes a hypothesis there).  cJSON_ReplaceItemInObject (not called by any Tier-B model) and
+    cJSON_Duplicate are not composed: for them the two halves stay separate — C06 / C11 (heap ⊑ forest) and
+    [tier_b_presupposition] clauses 10-11 (forest ↦ value). *)
 From CJ Require Import Base Dbl Heap Forest ForestLemmas CoreSpec CoreDefs CoreRefineBase CoreRefine CoreRefineMore
   CoreRefineObject CoreRefineByKey CoreRefineDupValue.
 From CJ Require Import TierBridgeDefs TierBridgeSort TierBridgeForest TierBridgeLemmas TierBridgeUtilsDefs TierBridgeUtils.
